@@ -131,6 +131,25 @@ theorem first_in_type_order_noext (g : Nat) (hg : 0 < g) (cps : List CPat) (name
     List.filter_eq_nil_iff.mpr (by simp)
   simp [extUnambiguous, this, hf]
 
+/-- VARIANT: if every extension alternative carried its own `.*\.` (see
+`groupMatchO`; the small patch proposed with the finding), group-size
+independence of the reported pattern would hold without any hypothesis. -/
+theorem group_size_irrelevant_inorder (g : Nat) (hg : 0 < g) (cps : List CPat) (name : List Char) :
+    globsterMatchO g cps name = firstInTypeOrder cps name := by
+  have key : ∀ k, ((chunks g (ofKind k cps)).map fun grp => (k, grp)).findSome?
+      (fun kg => groupMatchO kg.1 kg.2 name) = (ofKind k cps).find? fun p => cpMatches p name := by
+    intro k
+    rw [List.findSome?_map]
+    have hcp : ∀ p ∈ ofKind k cps, cpMatches p name = kindMatches k p name := by
+      intro p hp; rw [cpMatches_eq, (mem_ofKind.mp hp).2]
+    rw [find?_congr_mem hcp]
+    conv => rhs; rw [← chunks_flatten g hg (ofKind k cps)]
+    rw [List.find?_flatten]
+    rfl
+  unfold globsterMatchO firstInTypeOrder groups typeOrder
+  simp only [List.flatMap_cons, List.flatMap_nil, List.append_nil, List.findSome?_append, List.find?_append]
+  rw [key .ext, key .base, key .full]
+
 def wAB : CPat := ⟨['*', '.', 'a', '.', 'b'], .ext, [.lit 'a', .lit '.', .lit 'b']⟩
 def wB : CPat := ⟨['*', '.', 'b'], .ext, [.lit 'b']⟩
 
